@@ -50,6 +50,12 @@ _SETS = {}
 
 
 SETS = tuple(impl.DIALECTS) + ("ISISdef",)     # ISISdef: ISISEncoder()'s own default pairing
+# the same five pairings with grammar and decoder built separately (two grammar instances of one class)
+SETS += tuple(d + "sep" for d in impl.DIALECTS)
+
+
+def base_of(d):
+    return d[:-3] if d.endswith("sep") else d
 
 
 def sets_for(d):
@@ -58,6 +64,13 @@ def sets_for(d):
             g = impl.ISISGrammar()
             dec = impl.PVLDecoder(grammar=g)
             _SETS[d] = (g, dec, impl.ISISEncoder())
+            return _SETS[d]
+        if d.endswith("sep"):
+            g = type(impl.make_grammar_decoder(base_of(d))[0])()
+            dec = type(impl.make_grammar_decoder(base_of(d))[1])(grammar=type(g)())
+            E = {"PVL": impl.PVLEncoder, "ODL": impl.ODLEncoder, "PDS3": impl.PDSLabelEncoder,
+                 "ISIS": impl.ISISEncoder, "OMNI": impl.PVLEncoder}[base_of(d)]
+            _SETS[d] = (g, dec, E(grammar=g, decoder=dec))
             return _SETS[d]
         g, dec = impl.make_grammar_decoder(d)
         if d == "OMNI":
@@ -108,6 +121,7 @@ def check(d, s):
     g, dec, enc = sets_for(d)
     out = []
     case = {"dialect": d, "text": s}
+    setname, d = d, base_of(d)          # the rules are those of the dialect, however it was wired
 
     def bad(diag, detail):
         out.append({"case": case, "diagnosis": diag + ":" + d, "detail": "%r: %s" % (s, detail)})
@@ -272,7 +286,7 @@ def run(ctx):
     cov = {
         "evaluations": acc.n, "distinct_nontrivial": acc.nontrivial,
         "rule": "%d texts (every string of length <= %s over %r%s, plus %d curated borderline texts) x 6 "
-                "grammar/decoder/encoder sets (the five configurations plus ISISEncoder's own default pairing), in both dialect orders, each shard in a fresh process; per text: decoder cascade, 16 token predicates, encoder.encode_string "
+                "grammar/decoder/encoder sets (the five configurations, ISISEncoder's own default pairing, and the five again with grammar and decoder built as separate instances), in both dialect orders, each shard in a fresh process; per text: decoder cascade, 16 token predicates, encoder.encode_string "
                 "and re-decoding of what it wrote; non-trivial = all consistency conditions evaluated and satisfied"
                 % (len(W), "3" if ctx.quick else "4", ALPHA14 if ctx.quick else ALPHA23,
                    " and <= 2 over the 23-character alphabet" if ctx.quick else "", len(CURATED)),
